@@ -17,7 +17,6 @@ int __real_usleep(useconds_t);
 #define MAXREG 8
 static void *volatile REG[MAXREG];
 static __thread int DEPTH[MAXREG];
-void (*volatile vf_sched_point)(int point, void *mutex);
 volatile int vf_usleep_fast;
 volatile long vf_trylock_calls, vf_trylock_busy, vf_unlock_calls, vf_usleep_calls;
 
